@@ -19,14 +19,21 @@
 //!        codec generator `gen::message`), with and without MESSAGE-INTEGRITY / FINGERPRINT;
 //!      - the transaction id (fixed pattern, all zero, all one, only the lowest / highest bit, zero
 //!        low 64 bits, zero high 32 bits, ...) and which of its 96 bits differs in a wrong-id message;
-//!      - content of the request itself (header only, SOFTWARE, authenticated request).
+//!      - content of the request itself (header only, SOFTWARE, authenticated request);
+//!      - the address the request is sent to (IPv4, IPv6, IPv4-mapped IPv6 server) and the address its
+//!        messages are RECEIVED FROM: the server's own; the server's host with another port; the same
+//!        IPv4 host named in the other family (a.b.c.d <-> ::ffff:a.b.c.d, what a dual-stack socket
+//!        reports); another address of the same family (multi-homed / anycast server); an address of
+//!        the other family. The statement matches "by transaction id", by nothing else.
 //!    Quick: every schedule x {success, error} x {header only, one pooled body} and x {request,
 //!    indication} x one body, ids / request shapes rotating.  Thorough: every schedule x 4 classes x
 //!    every pooled body.
 //!  * client_concurrent: 2 or 3 requests pending at the same time on one endpoint (staggered starts,
 //!    ids that differ in one bit / only in the high 32 bits / only in the low 64 bits), each answered
 //!    (success or error, with or without attributes) at one of its transmissions or never, plus the
-//!    same id used again by a later call after the first one ended.
+//!    same id used again by a later call after the first one ended. Calls go to one server or to
+//!    different servers; a response comes from its own server, from another of that server's
+//!    addresses, or from the server ANOTHER pending call was sent to.
 //!  * client_cleanup: send_to failing at each transmission; the future dropped on a grid of
 //!    instants; afterwards a late message of each class with the request's id.
 //!  * client_transport: WHERE the call is when its response comes in. How the user's send_to
@@ -64,8 +71,9 @@
 //!    (client_transport accepts either reading for the whole case; ezk: from the end);
 //!  * a timing tie between a server task's delivery and the completion of a pending send_to (not
 //!    generated); what a send_to that fails AFTER the response came in should return;
-//!  * reliable transports, methods other than Binding (ezk's parser knows no other), source
-//!    address of the response, two calls pending with the SAME id.
+//!  * reliable transports, methods other than Binding (ezk's parser knows no other), the source
+//!    address StunEndpointUser::receive is told for an unmatched message, two calls pending with
+//!    the SAME id.
 
 use crate::engine::*;
 use crate::refmodel::ref_stun::*;
@@ -152,7 +160,7 @@ fn msg_bytes(class: RClass, tid: [u8; 12], attrs: &[RAttr], tail: &[RTail]) -> V
 }
 
 /// expected transmission instants in ms
-fn t_send(i: usize) -> u64 {
+pub(super) fn t_send(i: usize) -> u64 {
     500 * ((1u64 << i) - 1)
 }
 
@@ -166,6 +174,148 @@ fn runtime() -> tokio::runtime::Runtime {
 
 fn target() -> SocketAddr {
     "192.0.2.10:3478".parse().unwrap()
+}
+
+/// servers a request is sent to: IPv4, IPv6, and the IPv4 server the way a dual-stack socket names it
+pub(super) fn target_pool() -> Vec<SocketAddr> {
+    vec![target(), "[2001:db8::10]:3478".parse().unwrap(), "[::ffff:192.0.2.10]:19302".parse().unwrap()]
+}
+
+/// relation of the address a message is received from to the address the request was sent to
+#[derive(Clone, Copy, Debug, PartialEq, Eq)]
+pub(super) enum SourceKind {
+    Target,
+    /// same host, another port (server answers from another socket)
+    OtherPort,
+    /// the same IPv4 host named in the other family (a.b.c.d <-> ::ffff:a.b.c.d), same port
+    MappedForm,
+    /// another address of the same family (multi-homed / anycast server, NAT on the path)
+    OtherIp,
+    OtherFamily,
+}
+
+pub(super) fn v4_of(ip: std::net::IpAddr) -> Option<std::net::Ipv4Addr> {
+    match ip {
+        std::net::IpAddr::V4(a) => Some(a),
+        std::net::IpAddr::V6(a) => a.to_ipv4_mapped(),
+    }
+}
+
+pub(super) fn source_kind(target: SocketAddr, source: SocketAddr) -> SourceKind {
+    if source == target {
+        SourceKind::Target
+    } else if source.ip() == target.ip() {
+        SourceKind::OtherPort
+    } else if v4_of(source.ip()).is_some() && v4_of(source.ip()) == v4_of(target.ip()) {
+        SourceKind::MappedForm
+    } else if source.is_ipv4() == target.is_ipv4() {
+        SourceKind::OtherIp
+    } else {
+        SourceKind::OtherFamily
+    }
+}
+
+/// addresses a message for a request sent to `t` is received from; the first one is `t` itself
+pub(super) fn source_pool(t: SocketAddr) -> Vec<SocketAddr> {
+    use std::net::{IpAddr, Ipv4Addr, Ipv6Addr};
+    let p = t.port();
+    let other_port = SocketAddr::new(t.ip(), if p == 3478 { 3479 } else { 3478 });
+    let mut v = vec![t, other_port];
+    match t.ip() {
+        IpAddr::V4(a) => {
+            v.push(SocketAddr::new(IpAddr::V6(a.to_ipv6_mapped()), p));
+            let o = a.octets();
+            v.push(SocketAddr::new(IpAddr::V4(Ipv4Addr::new(o[0], o[1], o[2], o[3] ^ 1)), p));
+            v.push(SocketAddr::new(IpAddr::V4(Ipv4Addr::new(198, 51, 100, 77)), 40_000));
+            v.push(SocketAddr::new(IpAddr::V6(Ipv6Addr::new(0x2001, 0xdb8, 0, 0, 0, 0, 0, 0x10)), p));
+        }
+        IpAddr::V6(a) => {
+            if let Some(m) = a.to_ipv4_mapped() {
+                v.push(SocketAddr::new(IpAddr::V4(m), p));
+                let o = m.octets();
+                v.push(SocketAddr::new(IpAddr::V6(Ipv4Addr::new(o[0], o[1], o[2], o[3] ^ 1).to_ipv6_mapped()), p));
+                v.push(SocketAddr::new(IpAddr::V4(Ipv4Addr::new(198, 51, 100, 77)), p));
+            } else {
+                let mut s = a.segments();
+                s[7] ^= 1;
+                v.push(SocketAddr::new(IpAddr::V6(Ipv6Addr::from(s)), p));
+                // the same interface id under the link-local prefix
+                v.push(SocketAddr::new(IpAddr::V6(Ipv6Addr::new(0xfe80, 0, 0, 0, s[4], s[5], s[6], s[7] ^ 1)), p));
+                v.push(SocketAddr::new(IpAddr::V4(Ipv4Addr::new(192, 0, 2, 10)), p));
+            }
+        }
+    }
+    v
+}
+
+pub(super) fn source_class(k: SourceKind) -> &'static str {
+    match k {
+        SourceKind::Target => "source:the-target",
+        SourceKind::OtherPort => "source:target-host-other-port",
+        SourceKind::MappedForm => "source:target-host-in-the-other-family(v4-mapped)",
+        SourceKind::OtherIp => "source:other-address-same-family",
+        SourceKind::OtherFamily => "source:other-address-other-family",
+    }
+}
+
+/// part of a failure signature: which kind of source a response that was not matched came from
+pub(super) fn source_tag(k: SourceKind) -> &'static str {
+    match k {
+        SourceKind::Target => "",
+        SourceKind::OtherPort => "-from-another-port",
+        _ => "-from-another-address",
+    }
+}
+
+/// A failure signature that blames the source address (`source_tag`) is only right when the same
+/// exchange answered from the target's own address IS matched. `control` runs that exchange (the
+/// case with every source reset to the target; a pure function of the case); where it fails under the
+/// untagged signature as well, the source is not the cause and the tag is removed.
+pub(super) fn refine_source_tag(out: &mut CaseOut, control: impl FnOnce() -> CaseOut) {
+    let tags = ["-from-another-address", "-from-another-port"];
+    if !out.failures.iter().any(|f| tags.iter().any(|t| f.sig.contains(t))) {
+        return;
+    }
+    let ctl = control();
+    let mut kept: Vec<Failure> = vec![];
+    for mut f in std::mem::take(&mut out.failures) {
+        for t in tags {
+            if f.sig.contains(t) {
+                let base = f.sig.replace(t, "");
+                if ctl.failures.iter().any(|c| c.sig == base) {
+                    f.sig = base;
+                    f.msg.push_str(" [control: the same exchange answered from the target's own address is not matched either]");
+                }
+            }
+        }
+        if !kept.iter().any(|k| k.sig == f.sig) {
+            kept.push(f);
+        }
+    }
+    out.failures = kept;
+}
+
+pub(super) fn scratch_out() -> CaseOut {
+    CaseOut { failures: vec![], classes: vec![], nontrivial: None, note: None }
+}
+
+fn target_class(t: SocketAddr) -> &'static str {
+    match t.ip() {
+        std::net::IpAddr::V4(_) => "target:ipv4",
+        std::net::IpAddr::V6(a) if a.to_ipv4_mapped().is_some() => "target:ipv4-mapped-ipv6",
+        _ => "target:ipv6",
+    }
+}
+
+/// deterministic pseudo-random rotation of (target, source) over a counter (no correlation with the
+/// other rotating shapes of a case list)
+fn pick_addrs(m: usize) -> (SocketAddr, SocketAddr) {
+    let h = (m as u64).wrapping_mul(0x9E37_79B9_7F4A_7C15) >> 20;
+    let targets = target_pool();
+    let t = targets[(h % targets.len() as u64) as usize];
+    let pool = source_pool(t);
+    let s = pool[((h / 7) % pool.len() as u64) as usize];
+    (t, s)
 }
 
 fn new_user(t0: Instant, fail_on: Option<usize>, send_delay_ms: u64) -> MockUser {
@@ -308,6 +458,12 @@ pub struct ScheduleCase {
     pub req_attrs: Vec<RAttr>,
     #[serde(default)]
     pub req_tail: Vec<RTail>,
+    /// address the request is sent to (replays written before this field existed: 192.0.2.10:3478)
+    #[serde(default = "target")]
+    pub target: SocketAddr,
+    /// address every delivered message is received from; None: the target
+    #[serde(default)]
+    pub source: Option<SocketAddr>,
 }
 
 /// (answered, wrong_id, delay): all 2^7 loss patterns x {right id, wrong id, wrong-then-right} x 4 delays
@@ -337,6 +493,7 @@ pub fn schedule_cases(tier: Tier) -> Vec<ScheduleCase> {
     let reqs = req_pool();
     let empty = Body { attrs: vec![], tail: vec![] };
     let mut v = vec![];
+    let mut m = 0usize;
     for (n, &(answered, wrong_id, delay)) in base_schedules().iter().enumerate() {
         for (ci, &class) in classes.iter().enumerate() {
             let pool = &pools[ci];
@@ -354,6 +511,15 @@ pub fn schedule_cases(tier: Tier) -> Vec<ScheduleCase> {
                 let body = pick.map_or(&empty, |i| &pool[i]);
                 let req = if plain { &empty } else { &reqs[salt % reqs.len()] };
                 let base_bit = answered.wrapping_mul(13).wrapping_add(delay * 31) as usize;
+                // the plain exchange is answered from the address it was sent to; every other shape
+                // rotates the server address and where its messages come from
+                let (tgt, src) = if plain {
+                    (target(), None)
+                } else {
+                    m += 1;
+                    let (t, s) = pick_addrs(m);
+                    (t, Some(s))
+                };
                 v.push(ScheduleCase {
                     answered,
                     wrong_id,
@@ -365,6 +531,8 @@ pub fn schedule_cases(tier: Tier) -> Vec<ScheduleCase> {
                     tail: body.tail.clone(),
                     req_attrs: req.attrs.clone(),
                     req_tail: req.tail.clone(),
+                    target: tgt,
+                    source: src,
                 });
             }
         }
@@ -373,7 +541,7 @@ pub fn schedule_cases(tier: Tier) -> Vec<ScheduleCase> {
 }
 
 /// arrival time (ms) of the answer to transmission i
-fn arrival(i: usize, delay: u8) -> u64 {
+pub(super) fn arrival(i: usize, delay: u8) -> u64 {
     // wait after transmission i before the next one (or before giving up). For the last
     // transmission only the first 8 s are used so that both admissible give-up instants
     // (39.5 s and 63.5 s) lie after every generated arrival.
@@ -413,12 +581,24 @@ fn id_class(tid: &[u8; 12]) -> &'static str {
 }
 
 pub fn check_schedule(case: &ScheduleCase, out: &mut CaseOut) {
+    check_schedule_from(case, out);
+    refine_source_tag(out, || {
+        let mut o = scratch_out();
+        check_schedule_from(&ScheduleCase { source: None, ..case.clone() }, &mut o);
+        o
+    });
+}
+
+fn check_schedule_from(case: &ScheduleCase, out: &mut CaseOut) {
     let mut wrong_tid = case.tid;
     wrong_tid[(case.wrong_bit / 8) as usize] ^= 1 << (case.wrong_bit % 8);
     let right_bytes = msg_bytes(case.class, case.tid, &case.attrs, &case.tail);
     let wrong_bytes = msg_bytes(case.class, wrong_tid, &case.attrs, &case.tail);
     let bytes = msg_bytes(RClass::Request, case.tid, &case.req_attrs, &case.req_tail);
     let id = tid_u128(&case.tid);
+    let tgt = case.target;
+    let src = case.source.unwrap_or(tgt);
+    let skind = source_kind(tgt, src);
 
     // whether ezk's parser reads reference-encoded messages is the business of sub-check ref_decode
     if ParsedMessage::parse(right_bytes.clone()).is_err() || ParsedMessage::parse(wrong_bytes.clone()).is_err() {
@@ -426,6 +606,8 @@ pub fn check_schedule(case: &ScheduleCase, out: &mut CaseOut) {
         return;
     }
     out.nontrivial(case);
+    out.class(target_class(tgt));
+    out.class(source_class(skind));
 
     // script of arrivals: (ms, right id?)
     let mut arrivals: Vec<(u64, bool)> = (0..7)
@@ -460,7 +642,7 @@ pub fn check_schedule(case: &ScheduleCase, out: &mut CaseOut) {
         let ep = StunEndpoint::new(new_user(t0, None, 0));
         let tp = MockTp { reliable: false };
         let call = async {
-            let r = ep.send_request(Request { bytes: &bytes, tsx_id: id, transport: &tp }, target()).await;
+            let r = ep.send_request(Request { bytes: &bytes, tsx_id: id, transport: &tp }, tgt).await;
             let t = (Instant::now() - t0).as_micros() as u64;
             (r, t, ep.verif_pending())
         };
@@ -469,7 +651,7 @@ pub fn check_schedule(case: &ScheduleCase, out: &mut CaseOut) {
                 tokio::time::sleep_until(t0 + Duration::from_millis(*t)).await;
                 let b = if *right { right_bytes.clone() } else { wrong_bytes.clone() };
                 let msg = ParsedMessage::parse(b).expect("parsed before");
-                ep.receive(msg, target(), MockTp { reliable: false }).await;
+                ep.receive(msg, src, MockTp { reliable: false }).await;
             }
         };
         let ((r, t, p), ()) = tokio::join!(call, script);
@@ -498,8 +680,11 @@ pub fn check_schedule(case: &ScheduleCase, out: &mut CaseOut) {
         (Some(ts), false) => {
             if is_response(case.class) {
                 out.fail(
-                    format!("c20.client/{}-not-matched", class_name(case.class)),
-                    format!("{} with the id of the pending request delivered at {ts} ms, call returned None at {t_ret} us", class_name(case.class)),
+                    format!("c20.client/{}{}-not-matched", class_name(case.class), source_tag(skind)),
+                    format!(
+                        "{} with the id of the pending request (sent to {tgt}) received from {src} at {ts} ms, call returned None at {t_ret} us",
+                        class_name(case.class)
+                    ),
                 );
             }
             None
@@ -519,6 +704,15 @@ pub fn check_schedule(case: &ScheduleCase, out: &mut CaseOut) {
     };
     if !is_response(case.class) && t_first.is_some() {
         out.class(if completed { "non-response-with-the-pending-id:completes-the-call" } else { "non-response-with-the-pending-id:handed-to-user" });
+    }
+    if t_first.is_some() && is_response(case.class) {
+        out.class(match skind {
+            SourceKind::Target => "right-id-response-from:the-target",
+            SourceKind::OtherPort => "right-id-response-from:target-host-other-port",
+            SourceKind::MappedForm => "right-id-response-from:v4-mapped-form-of-the-target",
+            SourceKind::OtherIp => "right-id-response-from:other-address-same-family",
+            SourceKind::OtherFamily => "right-id-response-from:other-address-other-family",
+        });
     }
     out.class(match (t_done, t_first) {
         (Some(_), _) => "answered-with-right-id",
@@ -554,8 +748,8 @@ pub fn check_schedule(case: &ScheduleCase, out: &mut CaseOut) {
         let sig = if got_sends.len() != exp_sends_us.len() { "c20.client/transmission-count" } else { "c20.client/transmission-times" };
         out.fail(sig, format!("send_to called at {got_sends:?} us, expected {exp_sends_us:?} us"));
     }
-    for (_, b, tgt) in &sends {
-        if *b != bytes || *tgt != target() {
+    for (_, b, to) in &sends {
+        if *b != bytes || *to != tgt {
             out.fail("c20.client/retransmission-differs", "retransmitted bytes or target differ from the request");
         }
     }
@@ -607,6 +801,12 @@ pub struct CallSpec {
     pub class: RClass,
     /// response with the curated attributes of its class, or header only
     pub with_body: bool,
+    /// address this call's request is sent to
+    #[serde(default = "target")]
+    pub target: SocketAddr,
+    /// address this call's response is received from; None: its target
+    #[serde(default)]
+    pub source: Option<SocketAddr>,
 }
 
 #[derive(Clone, Debug, Hash, PartialEq, Eq, Serialize, Deserialize)]
@@ -615,6 +815,12 @@ pub struct ConcurrentCase {
 }
 
 impl CallSpec {
+    fn new(start_ms: u64, tid: [u8; 12], answer: Option<(u8, u8)>, class: RClass, with_body: bool) -> Self {
+        CallSpec { start_ms, tid, answer, class, with_body, target: target(), source: None }
+    }
+    fn source_addr(&self) -> SocketAddr {
+        self.source.unwrap_or(self.target)
+    }
     fn arrival_ms(&self) -> Option<u64> {
         self.answer.map(|(i, d)| self.start_ms + arrival(i as usize, d))
     }
@@ -648,6 +854,38 @@ fn admissible_concurrent(c: &ConcurrentCase) -> bool {
         }
     }
     true
+}
+
+/// Where the calls of case `n` are sent and where their responses come from. A quarter of the cases
+/// keeps the plain exchange (one server, answered from its address); the others: servers and sources
+/// drawn per call; one server per call with the response to each call coming from the server of the
+/// NEXT call (an address another pending request was sent to); one server answering every call
+/// from a different one of its addresses.
+fn vary_addrs(n: usize, calls: &mut [CallSpec]) {
+    let k = calls.len();
+    match ((n as u64).wrapping_mul(0x9E37_79B9_7F4A_7C15) >> 33) % 4 {
+        0 => {}
+        1 => {
+            for (j, c) in calls.iter_mut().enumerate() {
+                let (t, s) = pick_addrs(n * 3 + j);
+                c.target = t;
+                c.source = Some(s);
+            }
+        }
+        2 => {
+            let servers: [SocketAddr; 3] = [target(), "192.0.2.11:3478".parse().unwrap(), "[2001:db8::10]:3478".parse().unwrap()];
+            for (j, c) in calls.iter_mut().enumerate() {
+                c.target = servers[(n + j) % 3];
+                c.source = Some(servers[(n + (j + 1) % k) % 3]);
+            }
+        }
+        _ => {
+            let pool = source_pool(target());
+            for (j, c) in calls.iter_mut().enumerate() {
+                c.source = Some(pool[(n + j) % pool.len()]);
+            }
+        }
+    }
 }
 
 pub fn concurrent_cases(tier: Tier) -> Vec<ConcurrentCase> {
@@ -686,12 +924,12 @@ pub fn concurrent_cases(tier: Tier) -> Vec<ConcurrentCase> {
                 for a1 in &answers {
                     for (c0, c1) in class_pairs {
                         n += 1;
-                        v.push(ConcurrentCase {
-                            calls: vec![
-                                CallSpec { start_ms: 0, tid: *ta, answer: *a0, class: c0, with_body: n % 2 == 0 },
-                                CallSpec { start_ms: off, tid: *tb, answer: *a1, class: c1, with_body: n % 3 == 0 },
-                            ],
-                        });
+                        let mut calls = vec![
+                            CallSpec::new(0, *ta, *a0, c0, n % 2 == 0),
+                            CallSpec::new(off, *tb, *a1, c1, n % 3 == 0),
+                        ];
+                        vary_addrs(n, &mut calls);
+                        v.push(ConcurrentCase { calls });
                     }
                 }
             }
@@ -705,13 +943,13 @@ pub fn concurrent_cases(tier: Tier) -> Vec<ConcurrentCase> {
                 for flipc in [false, true] {
                     n += 1;
                     let c = |x: bool| if x != flipc { RClass::Error } else { RClass::Success };
-                    v.push(ConcurrentCase {
-                        calls: vec![
-                            CallSpec { start_ms: 0, tid: TID, answer: *a0, class: c(false), with_body: n % 2 == 0 },
-                            CallSpec { start_ms: 137, tid: flip(11, 0x01), answer: *a1, class: c(true), with_body: n % 3 == 0 },
-                            CallSpec { start_ms: 611, tid: flip(0, 0x80), answer: *a2, class: c(false), with_body: n % 5 == 0 },
-                        ],
-                    });
+                    let mut calls = vec![
+                        CallSpec::new(0, TID, *a0, c(false), n % 2 == 0),
+                        CallSpec::new(137, flip(11, 0x01), *a1, c(true), n % 3 == 0),
+                        CallSpec::new(611, flip(0, 0x80), *a2, c(false), n % 5 == 0),
+                    ];
+                    vary_addrs(n, &mut calls);
+                    v.push(ConcurrentCase { calls });
                 }
             }
         }
@@ -721,6 +959,19 @@ pub fn concurrent_cases(tier: Tier) -> Vec<ConcurrentCase> {
 }
 
 pub fn check_concurrent(case: &ConcurrentCase, out: &mut CaseOut) {
+    check_concurrent_from(case, out);
+    refine_source_tag(out, || {
+        let mut c = case.clone();
+        for call in c.calls.iter_mut() {
+            call.source = None;
+        }
+        let mut o = scratch_out();
+        check_concurrent_from(&c, &mut o);
+        o
+    });
+}
+
+fn check_concurrent_from(case: &ConcurrentCase, out: &mut CaseOut) {
     let calls = &case.calls;
     let responses: Vec<Vec<u8>> = calls.iter().map(|c| c.response_bytes()).collect();
     if responses.iter().any(|b| ParsedMessage::parse(b.clone()).is_err()) {
@@ -743,6 +994,15 @@ pub fn check_concurrent(case: &ConcurrentCase, out: &mut CaseOut) {
     if calls.iter().any(|c| c.class == RClass::Error && c.answer.is_some()) {
         out.class("error-response");
     }
+    if calls.iter().any(|c| c.target != calls[0].target) {
+        out.class("calls-to-different-servers");
+    }
+    for c in calls.iter().filter(|c| c.answer.is_some()) {
+        out.class(source_class(source_kind(c.target, c.source_addr())));
+        if calls.iter().any(|o| o.tid != c.tid && o.target == c.source_addr() && o.target != c.target) {
+            out.class("response-from-the-server-of-another-pending-call");
+        }
+    }
     // does a response overtake the response of a call that was started earlier?
     let arr: Vec<Option<u64>> = calls.iter().map(|c| c.arrival_ms()).collect();
     if (0..calls.len()).any(|a| (a + 1..calls.len()).any(|b| matches!((arr[a], arr[b]), (Some(x), Some(y)) if y < x))) {
@@ -759,11 +1019,11 @@ pub fn check_concurrent(case: &ConcurrentCase, out: &mut CaseOut) {
         for c in calls.iter() {
             let ep = ep.clone();
             let bytes = msg_bytes(RClass::Request, c.tid, &[], &[]);
-            let (start, id) = (c.start_ms, tid_u128(&c.tid));
+            let (start, id, tgt) = (c.start_ms, tid_u128(&c.tid), c.target);
             handles.push(tokio::spawn(async move {
                 tokio::time::sleep_until(t0 + Duration::from_millis(start)).await;
                 let tp = MockTp { reliable: false };
-                let r = ep.send_request(Request { bytes: &bytes, tsx_id: id, transport: &tp }, target()).await;
+                let r = ep.send_request(Request { bytes: &bytes, tsx_id: id, transport: &tp }, tgt).await;
                 let t = (Instant::now() - t0).as_micros() as u64;
                 let p = ep.verif_pending();
                 (r.map(|o| o.map(|m| (m.tsx_id, m.buffer().to_vec()))).map_err(|e| e.to_string()), t, p)
@@ -774,7 +1034,7 @@ pub fn check_concurrent(case: &ConcurrentCase, out: &mut CaseOut) {
         for (t, k) in script {
             tokio::time::sleep_until(t0 + Duration::from_millis(t)).await;
             let msg = ParsedMessage::parse(responses[k].clone()).expect("parsed before");
-            ep.receive(msg, target(), MockTp { reliable: false }).await;
+            ep.receive(msg, calls[k].source_addr(), MockTp { reliable: false }).await;
         }
         let mut results = vec![];
         for h in handles {
@@ -799,8 +1059,14 @@ pub fn check_concurrent(case: &ConcurrentCase, out: &mut CaseOut) {
         if let ((Ok(None), t_ret, _), Some(a)) = (&results[k], arr[k]) {
             unmatched = true;
             out.fail(
-                format!("c20.concurrent/{}-not-matched", class_name(c.class)),
-                format!("{} for call {:#x} delivered at {a} ms, call returned None at {t_ret} us", class_name(c.class), tid_u128(&c.tid)),
+                format!("c20.concurrent/{}{}-not-matched", class_name(c.class), source_tag(source_kind(c.target, c.source_addr()))),
+                format!(
+                    "{} for call {:#x} (sent to {}) received from {} at {a} ms, call returned None at {t_ret} us",
+                    class_name(c.class),
+                    tid_u128(&c.tid),
+                    c.target,
+                    c.source_addr()
+                ),
             );
         }
     }
@@ -830,7 +1096,7 @@ pub fn check_concurrent(case: &ConcurrentCase, out: &mut CaseOut) {
             out.fail(sig, format!("request {:#x}: send_to called at {got:?} us, expected {exp:?} us", tid_u128(tid)));
         }
     }
-    if sends.iter().any(|(_, b, tgt)| *tgt != target() || !calls.iter().any(|c| *b == msg_bytes(RClass::Request, c.tid, &[], &[]))) {
+    if sends.iter().any(|(_, b, tgt)| !calls.iter().any(|c| *tgt == c.target && *b == msg_bytes(RClass::Request, c.tid, &[], &[]))) {
         out.fail("c20.concurrent/retransmission-differs", "a transmission is none of the requests, or goes to another target");
     }
     for (k, c) in calls.iter().enumerate() {
@@ -1076,6 +1342,12 @@ pub struct TransportCase {
     pub tail: Vec<RTail>,
     pub req_attrs: Vec<RAttr>,
     pub req_tail: Vec<RTail>,
+    /// address the request is sent to
+    #[serde(default = "target")]
+    pub target: SocketAddr,
+    /// address the peer's messages are received from; None: the target
+    #[serde(default)]
+    pub source: Option<SocketAddr>,
 }
 
 /// (send mode, answer path): every path that differs from the others under that mode. No timing
@@ -1121,6 +1393,7 @@ pub fn transport_cases(tier: Tier) -> Vec<TransportCase> {
     let empty = Body { attrs: vec![], tail: vec![] };
     let mut v = vec![];
     let mut n = 0usize;
+    let mut m = 0usize;
     for (send, path) in transport_modes() {
         for &(right_at, wrong_at) in &schedules {
             n += 1;
@@ -1138,6 +1411,13 @@ pub fn transport_cases(tier: Tier) -> Vec<TransportCase> {
                     let salt = n * 7 + ci * 3 + k;
                     let body = pick.map_or(&empty, |i| &pool[i]);
                     let req = if plain { &empty } else { &reqs[salt % reqs.len()] };
+                    let (tgt, src) = if plain {
+                        (target(), None)
+                    } else {
+                        m += 1;
+                        let (t, s) = pick_addrs(m);
+                        (t, Some(s))
+                    };
                     v.push(TransportCase {
                         send,
                         path,
@@ -1150,6 +1430,8 @@ pub fn transport_cases(tier: Tier) -> Vec<TransportCase> {
                         tail: body.tail.clone(),
                         req_attrs: req.attrs.clone(),
                         req_tail: req.tail.clone(),
+                        target: tgt,
+                        source: src,
                     });
                 }
             }
@@ -1163,6 +1445,8 @@ struct NetUser {
     t0: Instant,
     send: SendMode,
     path: AnswerPath,
+    /// address the peer's messages are received from
+    source: SocketAddr,
     /// answers[n]: the messages the peer returns for transmission n, in order
     answers: Vec<Vec<Vec<u8>>>,
     ep: std::sync::OnceLock<std::sync::Weak<StunEndpoint<NetUser>>>,
@@ -1182,7 +1466,7 @@ async fn deliver_answers(ep: &StunEndpoint<NetUser>, n: usize) {
     let msgs = ep.user().answers.get(n).cloned().unwrap_or_default();
     for b in msgs {
         let msg = ParsedMessage::parse(b).expect("parsed before");
-        ep.receive(msg, target(), MockTp { reliable: false }).await;
+        ep.receive(msg, ep.user().source, MockTp { reliable: false }).await;
     }
 }
 
@@ -1232,6 +1516,15 @@ impl StunEndpointUser for NetUser {
 }
 
 pub fn check_transport(case: &TransportCase, out: &mut CaseOut) {
+    check_transport_from(case, out);
+    refine_source_tag(out, || {
+        let mut o = scratch_out();
+        check_transport_from(&TransportCase { source: None, ..case.clone() }, &mut o);
+        o
+    });
+}
+
+fn check_transport_from(case: &TransportCase, out: &mut CaseOut) {
     let mut wrong_tid = case.tid;
     wrong_tid[(case.wrong_bit / 8) as usize % 12] ^= 1 << (case.wrong_bit % 8);
     let right_bytes = msg_bytes(case.class, case.tid, &case.attrs, &case.tail);
@@ -1247,6 +1540,10 @@ pub fn check_transport(case: &TransportCase, out: &mut CaseOut) {
         return;
     }
     out.nontrivial(case);
+    let tgt = case.target;
+    let src = case.source.unwrap_or(tgt);
+    let skind = source_kind(tgt, src);
+    out.class(source_class(skind));
 
     let last = case.right_at.map_or(6, |i| i as usize);
     let wrong = |i: usize| i <= last && case.wrong_at & (1 << i) != 0;
@@ -1321,6 +1618,7 @@ pub fn check_transport(case: &TransportCase, out: &mut CaseOut) {
             t0,
             send: case.send,
             path: case.path,
+            source: src,
             answers,
             ep: std::sync::OnceLock::new(),
             to_server,
@@ -1343,7 +1641,7 @@ pub fn check_transport(case: &TransportCase, out: &mut CaseOut) {
             }
         });
         let tp = MockTp { reliable: false };
-        let r = ep.send_request(Request { bytes: &bytes, tsx_id: id, transport: &tp }, target()).await;
+        let r = ep.send_request(Request { bytes: &bytes, tsx_id: id, transport: &tp }, tgt).await;
         let t = (Instant::now() - t0).as_micros() as u64;
         let p = ep.verif_pending();
         let r = r.map(|o| o.map(|m| (m.tsx_id, m.buffer().to_vec(), super::ezk::from_ezk_class(m.class))));
@@ -1369,11 +1667,12 @@ pub fn check_transport(case: &TransportCase, out: &mut CaseOut) {
         (Some(i), false) => {
             // everything that follows (retransmissions, the message at the user) is a consequence
             let what = class_name(case.class);
-            let sig = if during { format!("c20.client/{what}-during-send_to-not-matched") } else { format!("c20.client/{what}-not-matched") };
+            let from = source_tag(skind);
+            let sig = if during { format!("c20.client/{what}{from}-during-send_to-not-matched") } else { format!("c20.client/{what}{from}-not-matched") };
             out.fail(
                 sig,
                 format!(
-                    "{what} with the id of the pending request, answer to transmission {i}, delivered {} (send_to {:?}, answer {:?}); the call went on and returned None at {t_ret} us; \
+                    "{what} with the id of the pending request (sent to {tgt}, received from {src}), answer to transmission {i}, delivered {} (send_to {:?}, answer {:?}); the call went on and returned None at {t_ret} us; \
                      StunEndpointUser::receive saw {:?}",
                     if during { "before send_to of that transmission returned" } else { "after send_to returned" },
                     case.send,
@@ -1412,8 +1711,8 @@ pub fn check_transport(case: &TransportCase, out: &mut CaseOut) {
         out.fail(sig, format!("send_to entered at {got_sends:?} us, expected {:?} ms (or {:?} ms)", timeline(true), timeline(false)));
         return;
     };
-    for (_, _, b, tgt) in &sends {
-        if *b != bytes || *tgt != target() {
+    for (_, _, b, to) in &sends {
+        if *b != bytes || *to != tgt {
             out.fail("c20.client/retransmission-differs", "retransmitted bytes or target differ from the request");
         }
     }
